@@ -285,13 +285,16 @@ func (m *Machine) mergeEval(fn *ssa.Function, args []Value, depth int) *Term {
 						fi.mergeable = 1
 					}
 				}
-				if _, isIntr := lookupIntrinsic(m, callee, callee.String()); isIntr || fi.mergeable != 1 {
-					requireDead()
-					continue
-				}
 				cargs := make([]Value, len(in.Call.Args))
 				for i, a := range in.Call.Args {
 					cargs[i] = get(a)
+				}
+				if pin, isIntr := lookupIntrinsic(m, callee, callee.String()); isIntr && pureIntrinsics[callee.String()] {
+					vals[in] = pin(m, callee, cargs)
+					continue
+				} else if isIntr || fi.mergeable != 1 {
+					requireDead()
+					continue
 				}
 				vals[in] = m.mergeEval(callee, cargs, depth+1)
 			case *ssa.If:
